@@ -355,6 +355,36 @@ impl Driver {
                     }
                 }
             }
+            "poll_eintr" => {
+                // requests() while nothing is ready: epoll_wait blocks and is interrupted by a signal
+                // (a repeating 1 ms timer, so that a signal arriving before the wait is entered does
+                // not leave the call blocked).  Expected: no event handled, the sweep runs, Ok(empty).
+                if ready {
+                    return false;
+                }
+                micro_http::verif::drain();
+                arm_timer(true);
+                let r = std::panic::catch_unwind(std::panic::AssertUnwindSafe(|| self.server.requests()));
+                arm_timer(false);
+                match r {
+                    Err(_) => {
+                        line["res"] = json!("panic");
+                        line["hooks"] = hooks();
+                        line["yielded"] = json!(0);
+                    }
+                    Ok(r) => {
+                        line["hooks"] = hooks();
+                        line["yielded"] = json!(r.as_ref().map(|v| v.len()).unwrap_or(0));
+                        line["res"] = json!(srv_res(&r.as_ref().map(|_| vec![]).map_err(|e| clone_err(e))));
+                        if let Ok(reqs) = r {
+                            for q in reqs {
+                                let uri = obs::uri_text(q.inner()).into_bytes();
+                                self.held.push((client_of_uri(&uri).unwrap_or(0), uri, q));
+                            }
+                        }
+                    }
+                }
+            }
             "fdcount" => {
                 line["n"] = json!(self.server_fd_count());
             }
@@ -366,6 +396,29 @@ impl Driver {
         // the history up to it can be recovered
         out.flush().unwrap();
         true
+    }
+}
+
+extern "C" fn on_alarm(_: libc::c_int) {}
+
+/// Arms (or disarms) a repeating 1 ms real-time timer whose SIGALRM handler does nothing and is
+/// installed WITHOUT SA_RESTART: a blocking epoll_wait returns EINTR.
+fn arm_timer(on: bool) {
+    // SAFETY: plain sigaction/setitimer calls with zero-initialised, fully filled structures.
+    unsafe {
+        if on {
+            let mut sa: libc::sigaction = std::mem::zeroed();
+            sa.sa_sigaction = on_alarm as usize;
+            sa.sa_flags = 0;
+            libc::sigemptyset(&mut sa.sa_mask);
+            libc::sigaction(libc::SIGALRM, &sa, std::ptr::null_mut());
+        }
+        let us = if on { 1000 } else { 0 };
+        let tv = libc::itimerval {
+            it_interval: libc::timeval { tv_sec: 0, tv_usec: us },
+            it_value: libc::timeval { tv_sec: 0, tv_usec: us },
+        };
+        libc::setitimer(libc::ITIMER_REAL, &tv, std::ptr::null_mut());
     }
 }
 
